@@ -389,6 +389,21 @@ where
         b: NodeIndex<Ix>,
         weight: E,
     ) -> Result<EdgeIndex<Ix>, GraphError> {
+        // Validate the endpoints before modifying any state: a vacant edge slot must
+        // not be taken off the free list for an insertion that is going to fail.
+        let missing = if cmp::max(a.index(), b.index()) >= self.g.nodes.len() {
+            Some(cmp::max(a.index(), b.index()))
+        } else if self.g.nodes[a.index()].weight.is_none() {
+            Some(a.index())
+        } else if self.g.nodes[b.index()].weight.is_none() {
+            Some(b.index())
+        } else {
+            None
+        };
+        if let Some(i) = missing {
+            return Err(GraphError::NodeMissed(i));
+        }
+
         let edge_idx;
         let mut new_edge = None::<Edge<_, _>>;
         {
